@@ -456,7 +456,8 @@ def readers_case(case, res):
             built[nm] = r
             L = len(r)
             for (o, n) in ((0, 8), (3, 5), (L - 6, 6)):
-                for chunks in (None, (-1,) + (1,) * (len(r.shape) - 1), (n,) + r.shape[1:]):
+                for chunks in (None, (-1,) + (1,) * (len(r.shape) - 1), (n,) + r.shape[1:],
+                               (max(1, n // 3),) + r.shape[1:], (1,) + (-1,) * (len(r.shape) - 1)):      # (the last two split the time axis)
                     sub = {"reader": nm, "offset": o, "n": n, "chunks": chunks}
                     res.state(("reader", nm, o, n, str(chunks)))
                     c0 = opens["n"]
